@@ -1,4 +1,6 @@
 """C07 correspondence: text -> tokens (lexer) and text -> value (lexer+parser+evaluator)."""
+import re
+
 from . import common as C
 from .framework import Tie
 
@@ -220,6 +222,38 @@ def mutate(rng, s):
     return s[:i] + rng.choice(['H', 'b', '0x', '$', '%', "'", 'BYTE', 'LSB(', 'BYTE3(', '..', '__']) + s[i:]
 
 
+_SHL_COUNT = re.compile(r'<<\s*(\$[0-9a-fA-F]+|0x[0-9a-fA-F]+|[%b][01]+|[0-9a-fA-F]+H\b|\d+)?')
+
+
+def _shift_counts_small(text):
+    """a left shift by an astronomically large count (a mutation can turn `<< %1011` into `<< 1011...` or put a label there) is
+    a resource question - Python raises MemoryError, Coq's Z.shiftl would iterate for ever - not a question of arithmetic:
+    such texts are left out.  Every `<<` must be followed directly by a literal of at most 4096."""
+    for m in _SHL_COUNT.finditer(text):
+        lit = m.group(1)
+        if lit is None:
+            return False
+        try:
+            if lit.startswith('$'):
+                v = int(lit[1:], 16)
+            elif lit.startswith('0x'):
+                v = int(lit[2:], 16)
+            elif lit[0] in '%b':
+                v = int(lit[1:], 2)
+            elif lit.endswith('H'):
+                v = int(lit[:-1], 16)
+            else:
+                v = int(lit)
+        except ValueError:
+            return False
+        if v > 4096:
+            return False
+        rest = text[m.end():]
+        if rest[:1].isalnum() or rest[:1] == '_':
+            return False                   # the literal runs on into a word
+    return True
+
+
 def gen_eval_cases(rng, tier):
     n = 1500 if tier == 'quick' else 30000
     maxd = 6 if tier == 'quick' else 12
@@ -237,6 +271,8 @@ def gen_eval_cases(rng, tier):
             kind = 'malformed'
             if rng.random() < 0.3:
                 s = mutate(rng, s)
+        if not _shift_counts_small(s):
+            continue
         cases.append({'text': s, 'env': env, 'kind': kind})
     return cases
 
